@@ -56,7 +56,7 @@ def main(argv):
             outdir = tempfile.mkdtemp(prefix="vfseed_out_")
             env2 = dict(os.environ, VERIF_REPO=wt, VERIF_OUT=outdir)
             env2.setdefault("VERIF_SEED", "1")
-            rc_c, out_c = sh([os.path.join(VERIF, "check"), pid, tier], env=env2, timeout=7200)
+            rc_c, out_c = sh([os.path.join(VERIF, "check"), pid, tier], env=env2, timeout=1500 if tier == "quick" else 7200)
             clause = next((l.strip() for l in out_c.splitlines() if l.strip().startswith("clause=")), "")
             checks[pid] = {"tier": tier, "exit": rc_c, "detected": rc_c == 1 and "VIOLATION property=" in out_c, "first_clause": clause[:300]}
             # keep the (shrunk) replay of the first violation next to the seeded change
